@@ -935,6 +935,7 @@ fn main() {
     let mut repo = std::env::var("VERIF_REPO").unwrap_or_else(|_| "/repo".to_string());
     let mut input: Option<String> = None;
     let mut ops_arg = String::new();
+    let mut trace_out = String::from("/verif/.work/C17/trace.ndjson");
     let mut i = 1;
     while i < args.len() {
         let val = || args.get(i + 1).cloned().unwrap_or_default();
@@ -950,6 +951,7 @@ fn main() {
             "--threads" => { threads = val().parse().unwrap(); i += 1; }
             "--verif-root" => { verif_root = val(); i += 1; }
             "--repo" => { repo = val(); i += 1; }
+            "--trace-out" => { trace_out = val(); i += 1; }
             "--ops" => { ops_arg = val(); i += 1; }
             "--input" => { input = Some(val()); i += 1; }
             _ => {}
@@ -1113,6 +1115,46 @@ fn main() {
                 }
             }
         }
+    } else if mode == "trace" {
+        // I->S: seeded random operations chosen without looking at the spec graph; every call is recorded with
+        // its result, the projection of the real structures and the lookups; TLC validates the file.
+        let mut out = std::io::BufWriter::new(std::fs::File::create(&trace_out).expect("trace output file"));
+        let (g, c) = (&sh.g, &sh.c);
+        let mut rng = Rng::new(seed);
+        let mut events = 0u64;
+        for _run in 0..walks {
+            let mut r = CertificateResolver::default();
+            let _ = writeln!(out, "{}", json!({"ev": "reset"}));
+            events += 1;
+            for _ in 0..len {
+                let k = rng.below(g.ops.len());
+                let op = g.ops[k];
+                let req = build(g, c, &op, address(), &mut rng);
+                let res = catch_unwind(AssertUnwindSafe(|| match &req {
+                    Req::Add(a, _) => r.add_certificate(a).map(|_| ()).map_err(|e| e.to_string()),
+                    Req::Remove(f) => r.remove_certificate(f).map_err(|e| e.to_string()),
+                    Req::Replace(rep, _, _) => r.replace_certificate(rep).map(|_| ()).map_err(|e| e.to_string()),
+                }));
+                let res = match res { Ok(Ok(())) => "ok", Ok(Err(_)) => "err", Err(_) => "panic" };
+                let (st, note) = match project(g, c, &r) { Ok(st) => (st.to_json(), json!("")), Err(e) => (json!({"certs": [], "idx": [], "trie": []}), json!(e)) };
+                let served: Vec<u8> = c.probes.iter().map(|p| served(c, &r, p)).collect();
+                let sni_names: Vec<Vec<u8>> = c.probes.iter().map(|p| {
+                    let mut v: Vec<u8> = r.names_for_sni(p.as_bytes()).unwrap_or_default().iter()
+                        .map(|n| c.names.iter().position(|x| x == n).map(|k| k as u8 + 1).unwrap_or(0)).collect();
+                    v.sort();
+                    v
+                }).collect();
+                let ev = match op.kind { Kind::Add => "add", Kind::Remove => "remove", Kind::Replace => "replace",
+                                         Kind::ReplaceFail => "replace_fail", Kind::ReplaceBadOld => "replace_badold" };
+                let _ = writeln!(out, "{}", json!({"ev": ev, "v": op.v, "f": op.f, "res": res, "certs": st["certs"], "idx": st["idx"], "trie": st["trie"],
+                    "served": served, "sni_names": sni_names, "note": note, "what": describe(g, c, k)}));
+                events += 1;
+                sh.stats.steps.fetch_add(1, Ordering::Relaxed);
+            }
+            *sh.histories_by_len.lock().unwrap().entry(len).or_insert(0) += 1;
+        }
+        out.flush().unwrap();
+        worker_stats = json!({"trace_events": events, "trace_file": trace_out});
     } else if mode == "worker" {
         worker_stats = worker_leg(&sh, seed, walks, len);
     } else {
